@@ -10,7 +10,8 @@ import SlipVerif.Driver.Util
      conc counter <reads> <finals>  reads = k.v,..  finals = k.v,..
        -> ok pass | ok fail k=<first rejected counter>
      conc run <seed> <fuel> <caps> <guards> <nch> <nctr> <thread> | <thread> | ..
-         thread = tokens  P<ch>.<v>  O<ch>  I<k>  L<m> .. E  H .. E  F   (push pop incr lock handler fail)
+         thread = tokens  P<ch>.<v>  O<ch>  S<ch>+<ch>..  I<k>  L<m> .. E  H .. E  F
+                  (push pop select incr lock handler fail)
        -> ok q=<0|1> steps=<n> guarded=<0|1> distinct=<0|1> finals=<v,..> got=<per thread #received>
              items=<per channel sorted p.v list;..> left=<per channel #buffered> fifo=.. mutex=.. counter=..
    The semantics executed by `run` and the checkers are the definitions of Model/Conc.lean the
@@ -121,6 +122,7 @@ def parseAtom (tok : String) : Option Stmt :=
   match tok.front with
   | 'P' => (parsePair body).map (fun p => Stmt.push p.1 p.2)
   | 'O' => body.toNat?.map Stmt.pop
+  | 'S' => ((body.splitOn "+").mapM String.toNat?).map Stmt.sel
   | 'I' => body.toNat?.map Stmt.incr
   | 'F' => if body = "" then some Stmt.fail else none
   | _ => none
@@ -156,11 +158,11 @@ def splitThreads (toks : List String) : List (List String) :=
 def lcg (x : Nat) : Nat := (x * 6364136223846793005 + 1442695040888963407) % 18446744073709551616
 
 /-- first enabled thread among t, t+1, … (cyclically), `k` candidates left -/
-def firstEnabled (S : Sys) (c : Config) (n t : Nat) : Nat → Option Config
+def firstEnabled (S : Sys) (c : Config) (n t choice : Nat) : Nat → Option Config
   | 0 => none
-  | k + 1 => match step S c (t % n) with
+  | k + 1 => match step S c (t % n) choice with
       | some c' => some c'
-      | none => firstEnabled S c n (t + 1) k
+      | none => firstEnabled S c n (t + 1) choice k
 
 /-- run under a seeded random scheduler until quiescence, deadlock or out of fuel -/
 def runRandom (S : Sys) (n : Nat) : Nat → Nat → Config → Nat → Config × Nat
@@ -169,7 +171,7 @@ def runRandom (S : Sys) (n : Nat) : Nat → Nat → Config → Nat → Config ×
       if quiescent S c then (c, steps)
       else
         let x' := lcg x
-        match firstEnabled S c n ((x' / 8589934592) % n) n with
+        match firstEnabled S c n ((x' / 8589934592) % n) (x' / 1048576) n with
         | some c' => runRandom S n fuel x' c' (steps + 1)
         | none => (c, steps)
 
